@@ -794,8 +794,6 @@ func (c *Compiler) compileUTF83ByteRangeSimple(lo, hi rune, endState StateID) []
 // compileUTF84ByteRange builds NFA for 4-byte UTF-8 range [lo, hi] (U+10000-U+10FFFF).
 // 4-byte: lead 0xF0-0xF4, cont1-3 0x80-0xBF
 func (c *Compiler) compileUTF84ByteRange(lo, hi rune, endState StateID) []StateID {
-	var starts []StateID
-
 	// Clamp to valid Unicode range
 	if hi > 0x10FFFF {
 		hi = 0x10FFFF
@@ -804,39 +802,52 @@ func (c *Compiler) compileUTF84ByteRange(lo, hi rune, endState StateID) []StateI
 		lo = 0x10000
 	}
 	if lo > hi {
+		return nil
+	}
+	return c.utf84Split(lo, hi, 3, endState)
+}
+
+// utf84Split builds byte-range chains that accept exactly the 4-byte UTF-8 encodings of the code
+// points in [lo, hi]. lo and hi agree on every byte above the current one, and n continuation bytes
+// follow the current byte (n == 3: the current byte is the lead byte). The range is split until it
+// either shares the current byte (recurse one byte down) or covers whole blocks of the bytes below
+// (current byte range followed by n unconstrained continuation bytes).
+func (c *Compiler) utf84Split(lo, hi rune, n int, endState StateID) []StateID {
+	byteAt := func(x rune) byte {
+		if n == 3 {
+			return byte(0xF0 | (x >> 18))
+		}
+		return byte(0x80 | ((x >> (6 * uint(n))) & 0x3F))
+	}
+	if n == 0 {
+		return []StateID{c.builder.AddByteRange(byteAt(lo), byteAt(hi), endState)}
+	}
+	m := rune(1)<<(6*uint(n)) - 1
+	if lo&^m == hi&^m {
+		// Same current byte: constrain the bytes below.
+		var starts []StateID
+		for _, sub := range c.utf84Split(lo, hi, n-1, endState) {
+			starts = append(starts, c.builder.AddByteRange(byteAt(lo), byteAt(lo), sub))
+		}
 		return starts
 	}
-
-	// UTF-8 4-byte encoding: 11110xxx 10xxxxxx 10xxxxxx 10xxxxxx
-	// For simplicity, use a conservative approach: match any valid 4-byte sequence in range
-	// This creates more states but is correct
-
-	loLead := byte(0xF0 | (lo >> 18))
-	hiLead := byte(0xF0 | (hi >> 18))
-
-	for leadVal := loLead; leadVal <= hiLead; leadVal++ {
-		// Determine cont1 range for this lead byte
-		var c1Lo, c1Hi byte
-		if leadVal == 0xF0 {
-			c1Lo = 0x90 // F0 requires cont1 >= 0x90
-		} else {
-			c1Lo = 0x80
-		}
-		if leadVal == 0xF4 {
-			c1Hi = 0x8F // F4 requires cont1 <= 0x8F
-		} else {
-			c1Hi = 0xBF
-		}
-
-		// Build states for each lead byte value
-		cont3 := c.builder.AddByteRange(0x80, 0xBF, endState)
-		cont2 := c.builder.AddByteRange(0x80, 0xBF, cont3)
-		cont1 := c.builder.AddByteRange(c1Lo, c1Hi, cont2)
-		lead := c.builder.AddByteRange(leadVal, leadVal, cont1)
-		starts = append(starts, lead)
+	var starts, tail []StateID
+	if lo&m != 0 {
+		starts = append(starts, c.utf84Split(lo, lo|m, n, endState)...)
+		lo = (lo | m) + 1
 	}
-
-	return starts
+	if hi&m != m {
+		tail = c.utf84Split(hi&^m, hi, n, endState)
+		hi = (hi &^ m) - 1
+	}
+	if lo <= hi {
+		next := endState
+		for k := 0; k < n; k++ {
+			next = c.builder.AddByteRange(0x80, 0xBF, next)
+		}
+		starts = append(starts, c.builder.AddByteRange(byteAt(lo), byteAt(hi), next))
+	}
+	return append(starts, tail...)
 }
 
 // buildUTF8NonASCIIBranches builds NFA branches for all valid UTF-8 multi-byte sequences.
